@@ -305,7 +305,7 @@ theorem monoA_facts (hk : MonoK0 h j) :
       | some q0 =>
         rw [hsl] at hq0; simp only [Option.getD_some] at hq0
         obtain ⟨c, hcm, hcp, _, _⟩ := hctx.slot_some hsl
-        have := (hn.pods c hcm).2.2.2.2.2.2.2
+        have := (hn.pods c hcm).2.2.2.2.2.2
         rw [hcp, ← hq0, hcreated] at this; cases this
   · rintro c hcm ⟨o, w, hm⟩ hfs hr
     obtain ⟨c', hc', hcid, hcase⟩ := monoA_delete_src hk hm
